@@ -95,7 +95,13 @@ fn gen_lcs<S: Scheme>(tx: &Tx<S>, allow_bounded_mix: bool, rng: &mut ChaCha20Rng
         let l = tx.polys[i].label().clone();
         let lc = &mut lcs[0];
         lc.terms.clear();
-        match rng.next_u32() % 3 {
+        match rng.next_u32() % 4 {
+            3 => {
+                // a single degree-bounded term whose coefficient is not one: the bound cannot be kept either
+                let c = nz::<S>(rng) + FOf::<S>::one();
+                let c = if c.is_one() { c + FOf::<S>::one() } else { c };
+                lc.push((c, LCTerm::PolyLabel(l)));
+            }
             0 => {
                 lc.push((FOf::<S>::one(), LCTerm::PolyLabel(l)));
                 lc.push((nz::<S>(rng), LCTerm::One));
